@@ -291,6 +291,21 @@ func (r *Reader) parseWorksheet(data []byte, name string, index int) (*Sheet, er
 		}
 	}
 
+	// The grid below is dense: its size comes from the row and cell references
+	// in the file, so it is checked against the limits of the format and against
+	// the number of cells that are really there before it is allocated
+	const maxSheetRows, maxSheetCols = 1048576, 16384
+	if maxRow > maxSheetRows || maxCol >= maxSheetCols {
+		return nil, fmt.Errorf("worksheet %s: cell reference outside the %d x %d grid", name, maxSheetRows, maxSheetCols)
+	}
+	populated := 0
+	for _, row := range ws.SheetData.Rows {
+		populated += len(row.Cells)
+	}
+	if grid := maxRow * (maxCol + 1); grid > 1<<20 && grid > 256*populated {
+		return nil, fmt.Errorf("worksheet %s: a grid of %d x %d cells for %d cells present", name, maxRow, maxCol+1, populated)
+	}
+
 	sheet.MaxRow = maxRow - 1 // Convert to 0-indexed
 	sheet.MaxCol = maxCol
 
